@@ -52,13 +52,18 @@ VSlices(e) ==
      ELSE IF e.res[2] # << <<cy[1] - b[3], cy[2] - b[3]>>, <<cx[1] - b[1], cx[2] - b[1]>> >> THEN "slices:box_window_wrong"
      ELSE "ok"
 
-(* from_float: flt in 1/8 pixel units (integers); res a box *)
+(* from_float: flt in 1/8 pixel units (integers) plus an infinitesimal offset eps[i] in {-1, 0, 1} (the harness adds     *)
+(* eps * 2^-k, k = 10..40, to the lattice value: exactly representable, far below the lattice spacing); res a box.        *)
+LeEps(a, b, eb) == a < b \/ (a = b /\ eb >= 0)           \* a <= b + eb*epsilon
+GeEps(a, b, eb) == a > b \/ (a = b /\ eb <= 0)           \* a >= b + eb*epsilon
+LtEps(a, b, eb) == a < b \/ (a = b /\ eb > 0)
+GtEps(a, b, eb) == a > b \/ (a = b /\ eb < 0)
 VFromFloat(e) ==
-  LET f == e.flt r == e.res IN
+  LET f == e.flt r == e.res  q == e.eps IN
   IF ~IsBox(r) THEN "from_float:not_a_box"
-  ELSE IF ~(8 * r[1] - 4 <= f[1] /\ f[2] <= 8 * r[2] - 4 /\ 8 * r[3] - 4 <= f[3] /\ f[4] <= 8 * r[4] - 4)
+  ELSE IF ~(LeEps(8 * r[1] - 4, f[1], q[1]) /\ GeEps(8 * r[2] - 4, f[2], q[2]) /\ LeEps(8 * r[3] - 4, f[3], q[3]) /\ GeEps(8 * r[4] - 4, f[4], q[4]))
          THEN "from_float:does_not_cover"
-  ELSE IF ~(8 * (r[1] + 1) - 4 > f[1] /\ f[2] > 8 * (r[2] - 1) - 4 /\ 8 * (r[3] + 1) - 4 > f[3] /\ f[4] > 8 * (r[4] - 1) - 4)
+  ELSE IF ~(GtEps(8 * (r[1] + 1) - 4, f[1], q[1]) /\ LtEps(8 * (r[2] - 1) - 4, f[2], q[2]) /\ GtEps(8 * (r[3] + 1) - 4, f[3], q[3]) /\ LtEps(8 * (r[4] - 1) - 4, f[4], q[4]))
          THEN "from_float:not_smallest"
   ELSE "ok"
 
